@@ -164,6 +164,9 @@ func main() {
 		for _, s := range slots {
 			base(s.wi, s.inst)
 		}
+		// announce the round first: under GORACE=halt_on_error=1 the process dies at the first report
+		fmt.Fprintln(out, "# START "+caseLine(procs, len(slots), reps, slots, map[int]string{}))
+		out.Flush()
 		runtime.GOMAXPROCS(procs)
 		o := runRound(slots, reps, 120*time.Second)
 		runtime.GOMAXPROCS(runtime.NumCPU())
